@@ -143,9 +143,7 @@ def register(gen, T):
 
         def bool_expr(text, atoms):
             """translate a Rust boolean expression over known atoms into Lean"""
-            toks = re.findall(r'\(|\)|&&|\|\||!(?!=)|[^()&|!\s][^()&|]*?(?=\s*(?:\)|&&|\|\||$))|\S', text)
             res = []
-            i = 0
             s = text.strip()
             # tokenise by hand: atoms may contain parentheses
             while s:
@@ -305,6 +303,9 @@ def register(gen, T):
         order_ok = bool(re.search(r'for param in &decl\.params \{ params\.push\(generate_function_param\( param, false, trampoline_target, context, \)\?\); \} if trampoline_target \{ params\.push\(ast::FunctionParam \{ param_type: ast::Type::from\(metal_lib_identifier\("true_type"\)\),.*?\}\) \} let parameters_for_globals = context\.function_required_globals\.get\(&id\)\.unwrap\(\)\.clone\(\); for param in parameters_for_globals \{', gfi))
         gft = normws(fn_body(gm, "generate_function_and_trampoline"))
         tramp_rule = bool(re.search(r'let has_out = sig \.param_types \.iter\(\) \.any\(\|p\| p\.input_modifier != ir::InputModifier::In\); let needs_trampoline = has_out && context\.called_functions\.contains\(&id\);', gft))
+        aag = normws(fn_body(gm, "append_arguments_for_globals"))
+        append_in_order = bool(re.match(r'let parameters_for_globals = context\.function_required_globals\.get\(&id\)\.unwrap\(\); for param in parameters_for_globals \{ match param \{', aag))
+        out.append(f"def argumentsAppendedInListOrder : Bool := {lb(append_in_order)}\n")
         out.append(f"def callSitesAppendCalleeList : Bool := {lb(call_appends)}\n"
                    f"def trampolineAppendsOwnList : Bool := {lb(tramp_appends)}\n"
                    f"def implicitParamsFollowUserParams : Bool := {lb(order_ok)}\n"
